@@ -181,6 +181,67 @@ def _also_other(body, s, tgt, b2):
     return False
 
 
+READ = "std::io::Read::read"
+FROM_ELEM = "std::vec::from_elem"
+
+
+def _samples_bounded(e, depth=0):
+    """e (a count of samples) is <= len(output window)"""
+    from .c09 import len_of_window
+    if depth > 10:
+        return False
+    p = peel(e, through_try=False)
+    w = len_of_window(p)
+    if w and w[1] == "W":
+        return True
+    if p.k == "call" and (p.q in MIN_CALLS or p.rq in MIN_CALLS):
+        return any(_samples_bounded(x, depth + 1) for x in p.args)
+    if p.k == "bin" and p.op in ("Sub", "Div", "Shr"):
+        return _samples_bounded(p.a, depth + 1)
+    if p.k == "call" and (p.q or "").split("::")[-1] in ("saturating_sub", "checked_sub", "wrapping_sub") and p.args:
+        return False if (p.q or "").endswith("wrapping_sub") else _samples_bounded(p.args[0], depth + 1)
+    return False
+
+
+def _bytes_bounded(e, depth=0):
+    """e (a count of bytes) is <= len(output window) * sample size"""
+    if depth > 10:
+        return False
+    p = peel(e, through_try=False)
+    if _samples_bounded(p, depth + 1):       # bytes <= samples-in-window (sample size >= 1)
+        return True
+    if p.k == "call" and (p.q in MIN_CALLS or p.rq in MIN_CALLS):
+        return any(_bytes_bounded(x, depth + 1) for x in p.args)
+    if p.k == "bin" and p.op == "Mul":
+        return _samples_bounded(p.a, depth + 1) or _samples_bounded(p.b, depth + 1)
+    if p.k == "bin" and p.op in ("Sub", "Div"):
+        return _bytes_bounded(p.a, depth + 1)
+    return False
+
+
+def rule_r5(facts, col):
+    """a source never pulls more bytes from its file/socket in one call than its output window can take: what does
+    not fit stays in the carry buffer where the EOF / repeat decision (taken on the file position alone) cannot see it"""
+    for body in facts.impl_bodies(BLOCK_TRAIT, "work"):
+        for bb, t in body.calls_to(READ):
+            if len(t["args"]) < 2 or t.get("sp", {}).get("x"):
+                continue
+            buf = body.operand_expr(t["args"][1])
+            sizes = [x for x in walk(buf) if x.k == "call" and x.q == FROM_ELEM and len(x.args) >= 2]
+            key = "%s:read" % body.q
+            if not sizes:
+                col.silent("C16.R5", key, body.where(bb), "read target is not a vec![0; n] staging buffer")
+                continue
+            n = sizes[0].args[1]
+            if _bytes_bounded(n):
+                col.ok("C16.R5", key, body.where(bb), "staging buffer size %s <= output window" % show(peel(n, through_try=False))[:60])
+            else:
+                col.bad("C16.R5", key, body.where(bb),
+                        "work() reads up to %s bytes, which is not bounded by the output window: the samples that do not fit stay in "
+                        "the block's carry buffer while `bytes left`/the file position already say 'all read', so the EOF (or "
+                        "rewind-for-repeat) decision is taken with samples still unemitted" % show(peel(n, through_try=False))[:80], {})
+
+
 def run(ctx):
     facts = ctx.facts("default")
     ctx.anchor("C16", REPEAT_ADT in facts.adts, "struct Repeat")
@@ -189,6 +250,8 @@ def run(ctx):
     rule_r2(facts, ctx)
     rule_r3(facts, ctx)
     rule_r4(facts, ctx)
+    rule_r5(facts, ctx)
+    ctx.floor("C16.R5", 2, "FileSource and SigMFSource read(2) staging buffers (TcpSource counted when present)")
     from .. import controls
     controls.expect(ctx, "C16.R2", rule_r2, "BadSource", "finite source that never asks done()")
     ctx.floor("C16.R1", 1, "Repeat::again arithmetic")
